@@ -146,6 +146,7 @@ func runOne(spec *PropSpec, dir string, cfg Config) (r *Run, stats map[string]an
 	r = newRun(spec.ID, p)
 	spec.Rules(r)
 	ruleStillWired(r)
+	ruleChannelsWired(r)
 	files := 0
 	for _, pk := range p.Pkgs {
 		files += len(pk.Syntax)
@@ -263,6 +264,7 @@ func cmdSweep(args []string) int {
 			r := newRun(id, p)
 			spec.Rules(r)
 			ruleStillWired(r)
+			ruleChannelsWired(r)
 			for _, rr := range r.Rules {
 				if len(rr.Obs) < rr.Floor {
 					fmt.Printf("FLOOR %s.%s %d<%d\n", id, rr.ID, len(rr.Obs), rr.Floor)
